@@ -15,6 +15,10 @@ import (
 
 func constantInt(k int64) constant.Value { return constant.MakeInt64(k) }
 
+func intConstTermTyped(k int64, t types.Type) *Term {
+	return &Term{Kind: "const", Name: constant.MakeInt64(k).ExactString(), Val: ssa.NewConst(constant.MakeInt64(k), t), Typ: t}
+}
+
 func intConstTerm(k int64) *Term {
 	return &Term{Kind: "const", Name: constant.MakeInt64(k).ExactString(), Val: ssa.NewConst(constant.MakeInt64(k), types.Typ[types.Int64]), Typ: types.Typ[types.Int64]}
 }
